@@ -49,11 +49,12 @@ def _sha1(path):
 class Recording:
     """A source tree written by the real writers, kept as a pristine template."""
 
-    def __init__(self, digital_rf, root, seed, nch=1, name="rec"):
+    def __init__(self, digital_rf, root, seed, nch=1, name="rec", fc_ms=None):
         import random
 
         rng = random.Random(seed)
-        self.params = dict(seed=seed, nch=nch, name=name)   # enough to write the same recording again
+        self.params = dict(seed=seed, nch=nch, name=name, fc_ms=fc_ms)   # enough to write the same recording again
+        force_fc = fc_ms
         self.root = root
         self.name = name
         if os.path.exists(root):
@@ -67,6 +68,8 @@ class Recording:
             os.makedirs(chdir)
             fs = rng.choice([10, 100, 250])
             fc_ms = rng.choice([1000, 500, 2000])
+            if force_fc:
+                fc_ms = force_fc
             per_file = fs * fc_ms // 1000
             sc = rng.choice([2, 4, 3600])
             sc = max(sc, fc_ms // 1000)
